@@ -63,8 +63,41 @@ def run(ck):
             last = replay_of(ck, x, {"input_class": cls})
         if len(ck.cov["samples"]) < 10 and cls not in [s.get("class") for s in ck.cov["samples"]]:
             ck.cov["samples"].append({"class": cls, "len": len(x["data"]), "prefix": x["data"][:12].hex(), "decrypt": x["dec"][:30], "verify": x["ver"], "info": x["dec_kv"]})
+    if not big:
+        # quick tier: the part of the malformed stream that reaches code BEHIND the magic-number test (mode bytes of every class, short
+        # headers, garbage with the right magic) once more under AddressSanitizer + UBSan: an overflow of a byte or two on the stack or
+        # in the heap slack does not change any answer and shows only there
+        try:
+            sanq = ck.impl_driver(buf=BUF, hbuf=HBUF, extra_flags=["-fsanitize=address,undefined", "-fno-sanitize-recover=all"])
+        except wv.BuildError as e:
+            sanq = None
+            ck.notes.append("ASan build failed: " + str(e)[-200:])
+        if sanq:
+            MAGIC = bytes.fromhex("c3a5c3a5c3a5c3a5")
+            sub = [x for x in res if x["data"][:8] == MAGIC and not x["meta"].get("valid")
+                   and (x["meta"].get("garbage") or (x["meta"].get("mut") and ("mode-byte" in x["meta"]["mut"].cls or "ctype" in x["meta"]["mut"].cls or "htype" in x["meta"]["mut"].cls or x["meta"]["mut"].lo in (8, 9))))][:160]
+            for v in (10, 11, 40, 99, 250):        # two-digit and three-digit mode numbers
+                for off in (8, 9):
+                    if files:
+                        g = bytearray(files[0][1]); g[off] = v
+                        sub.append({"T": files[0][0].T, "key": files[0][0].key, "data": bytes(g), "meta": {}})
+            sl = []
+            for i, x in enumerate(sub):
+                sl.append("sd%d dec %d %s %s" % (i, x["T"], x["key"].hex(), wv.hexs(x["data"])))
+                sl.append("sv%d ver %d %s %s" % (i, x["T"], x["key"].hex(), wv.hexs(x["data"])))
+            so = wv.run_lines([sanq], sl, env=dict(env, ASAN_OPTIONS="detect_leaks=0:abort_on_error=1:new_delete_type_mismatch=0", UBSAN_OPTIONS="halt_on_error=1"))
+            for l in sl:
+                cid = l.split()[0]
+                h = split_impl(so.get(cid, "(no output)"))[0]
+                ck.cov["evaluations"] += 1
+                if not (h.startswith("OK") or h.startswith("FAIL ")):
+                    ck.violation("%s under AddressSanitizer/UBSan did not terminate normally on a malformed input (memory error or undefined behaviour): %s" % (l.split()[1], h[:60]),
+                                 {"class": None, "case": l[:3000], "implementation_asan": so.get(cid, "")[:300], "driver_flags": ck.impl_flags + " -fsanitize=address,undefined",
+                                  "replay": "build harness/drv.cpp against /repo with -fsanitize=address,undefined; echo '<case>' | ASAN_OPTIONS=detect_leaks=0:new_delete_type_mismatch=0 ./drv"})
+                    break
+            dist["asan-subset-behind-the-magic-test"] = len(sl)
     ck.cov["distinct_nontrivial"] = len(distinct)
-    ck.cov["sanitizers"] = "ASan+UBSan build used for every input" if san else "not in the quick tier"
+    ck.cov["sanitizers"] = "ASan+UBSan build used for every input" if san else "quick tier: ASan+UBSan on the subset that gets behind the magic-number test"
     ck.cov["disagreements_model_vs_impl"] = corr
     if corr and not ck.violations:
         last["broken"] = "correspondence dec/ver model vs implementation on malformed input"
